@@ -75,6 +75,7 @@ type sengine struct {
 	onIf       func(p *spath, fr *sframe, x *ssa.If, cond iv) (stop bool, val iv, note string)
 	param      func(fn *ssa.Function, prm *ssa.Parameter) (iv, bool)
 	builtin    func(p *spath, fr *sframe, call *ssa.Call, name string, args []iv) (iv, bool)
+	stopBlocks map[*ssa.BasicBlock]bool // a path of the function under analysis ends when it enters one of these
 	outcomes   []soutcome
 	budget     int
 	problems   []string
@@ -188,6 +189,10 @@ func (e *sengine) run(p *spath) {
 		}
 		fr := p.stack[len(p.stack)-1]
 		if fr.idx >= len(fr.blk.Instrs) {
+			return
+		}
+		if fr.idx == 0 && len(p.stack) == 1 && p.steps > 1 && e.stopBlocks[fr.blk] {
+			e.finish(p, soutcome{stopped: true, stopNote: "block"})
 			return
 		}
 		in := fr.blk.Instrs[fr.idx]
